@@ -112,6 +112,194 @@ def extract_attr_defaults(repo):
     return out, nonlit
 
 
+# ---------------------------------------------------------------------------
+# control skeletons: Python AST -> DEvo.Skel.Stmt
+# ---------------------------------------------------------------------------
+
+PURE_CALLS = {'isinstance', 'issubclass', 'len', 'int', 'str', 'list', 'set', 'tuple', 'dict', 'getattr',
+              'hasattr', '_', 'ngettext', 'super', 'type', 'enumerate', 'sorted', 'reversed', 'bool',
+              'six.iteritems', 'six.itervalues', 'six.iterkeys', 'six.text_type', 'OrderedDict',
+              'callable', 'any', 'all', 'repr', 'logger.debug', 'logger.warning', 'logging.error',
+              'logging.warning', 'itertools.chain.from_iterable', 'range', 'zip', 'filter_dup_list_items'}
+CATCH_ALL = {'Exception', 'BaseException'}
+
+
+def _callee(node):
+    name = ast.unparse(node.func)
+    if name.startswith('self.'):
+        name = name[5:]
+    return name
+
+
+class _Skel(object):
+    def calls_in(self, node):
+        """call statements for every call inside an expression, in evaluation order"""
+        out = []
+        if node is None:
+            return out
+
+        def visit(n):
+            if isinstance(n, ast.Lambda):
+                return
+            for c in ast.iter_child_nodes(n):
+                visit(c)
+            if isinstance(n, ast.Call):
+                nm = _callee(n)
+                if nm not in PURE_CALLS:
+                    out.append(('call', nm))
+        visit(node)
+        return out
+
+    def block(self, stmts):
+        out = []
+        for st in stmts:
+            out += self.stmt(st)
+        return out
+
+    def stmt(self, st):
+        if isinstance(st, (ast.Expr, ast.Assign, ast.AugAssign, ast.AnnAssign)):
+            return self.calls_in(st.value if not isinstance(st, ast.Expr) else st.value)
+        if isinstance(st, (ast.Pass, ast.Import, ast.ImportFrom, ast.Global, ast.Nonlocal)):
+            return []
+        if isinstance(st, ast.FunctionDef):
+            out = []
+            for d in st.decorator_list:
+                out += self.calls_in(d)
+            return out
+        if isinstance(st, ast.Return):
+            return self.calls_in(st.value) + [('ret',)]
+        if isinstance(st, ast.Raise):
+            what = ast.unparse(st.exc.func) if isinstance(st.exc, ast.Call) else (ast.unparse(st.exc) if st.exc else 'reraise')
+            inner = []
+            if isinstance(st.exc, ast.Call):
+                for a in list(st.exc.args) + [k.value for k in st.exc.keywords]:
+                    inner += self.calls_in(a)
+            return inner + [('raise', what)]
+        if isinstance(st, ast.Assert):
+            return self.calls_in(st.test) + [('ite', 'assert ' + ast.unparse(st.test), [], [('raise', 'AssertionError')])]
+        if isinstance(st, ast.If):
+            return self.calls_in(st.test) + [('ite', ast.unparse(st.test), self.block(st.body), self.block(st.orelse))]
+        if isinstance(st, ast.For):
+            if st.orelse:
+                raise ExtractError('for/else is outside the translated subset')
+            return self.calls_in(st.iter) + [('loop', ast.unparse(st.iter), self.block(st.body))]
+        if isinstance(st, ast.While):
+            if st.orelse:
+                raise ExtractError('while/else is outside the translated subset')
+            return [('loop', ast.unparse(st.test), self.calls_in(st.test) + self.block(st.body))]
+        if isinstance(st, ast.With):
+            pre = []
+            names = []
+            for item in st.items:
+                pre += self.calls_in(item.context_expr)
+                e = item.context_expr
+                names.append(_callee(e) if isinstance(e, ast.Call) else ast.unparse(e))
+            body = self.block(st.body)
+            for nm in reversed(names):
+                body = [('call', 'enter:' + nm), ('finally', body, [('call', 'exit:' + nm)])]
+            return pre + body
+        if isinstance(st, ast.Try):
+            if st.orelse:
+                raise ExtractError('try/else is outside the translated subset')
+            body = self.block(st.body)
+            res = body
+            if st.handlers:
+                catch_all = False
+                hs = []
+                for h in st.handlers:
+                    if h.type is None:
+                        catch_all = True
+                    else:
+                        types = h.type.elts if isinstance(h.type, ast.Tuple) else [h.type]
+                        if any(ast.unparse(t) in CATCH_ALL for t in types):
+                            catch_all = True
+                    hs.append(self.block(h.body))
+                res = [('try', body, catch_all, hs)]
+            if st.finalbody:
+                res = [('finally', res, self.block(st.finalbody))]
+            return res
+        if isinstance(st, (ast.Break, ast.Continue)):
+            raise ExtractError('break/continue is outside the translated subset')
+        if isinstance(st, ast.Delete):
+            return []
+        raise ExtractError('statement %s is outside the translated subset' % type(st).__name__)
+
+
+def skel_to_lean(items):
+    """list of tuple-encoded statements -> Lean term of type DEvo.Skel.Stmt"""
+    def one(it):
+        k = it[0]
+        if k == 'call':
+            return '(.call %s)' % lean_str(it[1])
+        if k == 'ret':
+            return '.ret'
+        if k == 'raise':
+            return '(.raise %s)' % lean_str(it[1])
+        if k == 'ite':
+            return '(.ite %s %s %s)' % (lean_str(it[1]), seq(it[2]), seq(it[3]))
+        if k == 'loop':
+            return '(.loop %s %s)' % (lean_str(it[1]), seq(it[2]))
+        if k == 'finally':
+            return '(.tryFinally %s %s)' % (seq(it[1]), seq(it[2]))
+        if k == 'try':
+            hs = [seq(h) for h in it[3]]
+            h = hs[-1]
+            for x in reversed(hs[:-1]):
+                h = '(.choice %s %s)' % (x, h)
+            return '(.tryExcept %s %s %s)' % (seq(it[1]), 'true' if it[2] else 'false', h)
+        raise ExtractError('bad skeleton item %r' % (it,))
+
+    def seq(items):
+        if not items:
+            return '.skip'
+        out = one(items[-1])
+        for it in reversed(items[:-1]):
+            out = '(.seq %s %s)' % (one(it), out)
+        return out
+    return seq(items)
+
+
+SKELETONS = [
+    # (lean name, file, class, function)
+    ('evolverEvolve', 'django_evolution/evolve/evolver.py', 'Evolver', 'evolve'),
+    ('evolverSaveProjectSig', 'django_evolution/evolve/evolver.py', 'Evolver', '_save_project_sig'),
+    ('sqlExecutorEnter', 'django_evolution/utils/sql.py', 'SQLExecutor', '__enter__'),
+    ('sqlExecutorExit', 'django_evolution/utils/sql.py', 'SQLExecutor', '__exit__'),
+    ('sqlExecutorNewTransaction', 'django_evolution/utils/sql.py', 'SQLExecutor', 'new_transaction'),
+    ('sqlExecutorFinishTransaction', 'django_evolution/utils/sql.py', 'SQLExecutor', 'finish_transaction'),
+    ('sqlExecutorRunSql', 'django_evolution/utils/sql.py', 'SQLExecutor', 'run_sql'),
+    ('taskExecute', 'django_evolution/evolve/evolve_app_task.py', 'EvolveAppTask', 'execute'),
+    ('taskCreateModels', 'django_evolution/evolve/evolve_app_task.py', 'EvolveAppTask', '_create_models'),
+    ('taskExecuteTasks', 'django_evolution/evolve/evolve_app_task.py', 'EvolveAppTask', 'execute_tasks'),
+    ('purgeExecute', 'django_evolution/evolve/purge_app_task.py', 'PurgeAppTask', 'execute'),
+    ('commandHandle', 'django_evolution/management/commands/evolve.py', 'Command', 'handle'),
+    ('commandCheckSimulation', 'django_evolution/management/commands/evolve.py', 'Command', '_check_simulation'),
+    ('commandPerformEvolution', 'django_evolution/management/commands/evolve.py', 'Command', '_perform_evolution'),
+]
+
+
+def extract_skeletons(repo):
+    out = []
+    cache = {}
+    for lean_name, rel, cls_name, fn_name in SKELETONS:
+        if rel not in cache:
+            cache[rel] = ast.parse(_src(repo, rel))
+        cls = _find_class(cache[rel], cls_name)
+        fn = None
+        for n in cls.body:
+            if isinstance(n, ast.FunctionDef) and n.name == fn_name:
+                fn = n
+        if fn is None:
+            raise ExtractError('%s.%s not found' % (cls_name, fn_name))
+        body = fn.body
+        if body and isinstance(body[0], ast.Expr) and isinstance(body[0].value, ast.Constant) \
+                and isinstance(body[0].value.value, str):
+            body = body[1:]
+        items = _Skel().block(body)
+        out.append((lean_name, '%s.%s (%s)' % (cls_name, fn_name, rel), skel_to_lean(items)))
+    return out
+
+
 def regenerate(repo, outdir):
     os.makedirs(outdir, exist_ok=True)
     flags = {}
@@ -130,4 +318,12 @@ def regenerate(repo, outdir):
         for k, ents in defaults))
     parts += ['', 'end DEvo.Generated', '']
     write_if_changed(os.path.join(outdir, 'Tables.lean'), '\n'.join(parts))
+    sk = ['import DEvo.Run.Skel', '', '/-! GENERATED by tools/vlib/extract.py from /repo — do not edit. -/', '',
+          'namespace DEvo.Generated', 'open DEvo.Skel', '']
+    for lean_name, origin, term in extract_skeletons(repo):
+        sk.append('/-- control skeleton of `%s` -/' % origin)
+        sk.append('def %s : Stmt :=\n  %s' % (lean_name, term))
+        sk.append('')
+    sk += ['end DEvo.Generated', '']
+    write_if_changed(os.path.join(outdir, 'Skeletons.lean'), '\n'.join(sk))
     return flags
